@@ -261,7 +261,7 @@ class Run:
         if len(il) < len(ops):
             # the implementation side died (sanitizer report, crash): name the operation it was executing
             if not hasattr(self, "crashes"): self.crashes = []
-            self.crashes.append({"op": ops[len(il)], "rc": pi.returncode, "stderr": ie[-3000:]})
+            self.crashes.append({"op": ops[len(il)], "rc": pi.returncode, "stderr": (ie if len(ie) <= 6000 else ie[:3000] + "\n[...]\n" + ie[-3000:])})
             il = il + ["crashed rc=%s" % pi.returncode] * (len(ops) - len(il))
         return il, ml, opf
 
